@@ -180,7 +180,7 @@ def canon_value(v):
     if isinstance(v, bool):
         return {"t": "bool", "v": v}
     if isinstance(v, int):
-        return v if abs(v) < 2**53 else {"t": "int", "v": str(v)}
+        return v  # Python ints are exact through JSON in both directions
     if isinstance(v, float):
         return {"t": "float", "v": repr(v)}
     if isinstance(v, str):
@@ -192,7 +192,7 @@ def canon_value(v):
     if isinstance(v, datetime.date):
         return {"t": "date", "v": v.isoformat()}
     if isinstance(v, NicknameSlot):
-        rid = v.allocated_id
+        rid = v.id  # what every real output stream does (OutputStream.flatten reads `.id`)
         return {"t": "ref", "table": v._tablename, "id": rid if isinstance(rid, int) else repr(rid), "slot": True}
     if isinstance(v, (ObjectRow, ObjectReference)):
         rid = v.id
